@@ -58,19 +58,19 @@ LCM(a, b) == (a \div GCD(a, b)) * b
 (* the same form, a right-hand side and a solution carry bw padding zeros. *)
 (***************************************************************************)
 Ones(n) == [k \in 1..n |-> 1]
-LDLt(L, d, n) == [i \in 1..n |-> [j \in 1..n |-> ISum([k \in 1..n |-> L[i][k] * d[k] * L[j][k]])]]
+LDLt(L, d, n) == [i \in 1..n |-> TLCEval([j \in 1..n |-> ISum([k \in 1..n |-> L[i][k] * d[k] * L[j][k]])])]
 LLt(L, n) == LDLt(L, Ones(n), n)
 MatVec(A, x, n) == [i \in 1..n |-> ISum([j \in 1..n |-> A[i][j] * x[j]])]
 
 IsLowerBanded(L, n, bw) == \A i, j \in 1..n : (j > i \/ i - j >= bw) => L[i][j] = 0
 IsSymBanded(A, n, bw) == \A i, j \in 1..n : A[i][j] = A[j][i] /\ (i - j >= bw => A[i][j] = 0)
 
-Band(A, n, bw) == [k \in 1..bw |-> [j \in 1..(n + bw) |-> IF j <= n /\ j + k - 1 <= n THEN A[j + k - 1][j] ELSE 0]]
-Unband(ab, n, bw) == [i \in 1..n |-> [j \in 1..n |->
+Band(A, n, bw) == [k \in 1..bw |-> TLCEval([j \in 1..(n + bw) |-> IF j <= n /\ j + k - 1 <= n THEN A[j + k - 1][j] ELSE 0])]
+Unband(ab, n, bw) == [i \in 1..n |-> TLCEval([j \in 1..n |->
                         LET lo == IMin(i, j)
                             d == IMax(i, j) - lo
-                        IN IF d < bw THEN ab[d + 1][lo] ELSE 0]]
-UnbandLower(ab, n, bw) == [i \in 1..n |-> [j \in 1..n |-> IF j <= i /\ i - j < bw THEN ab[i - j + 1][j] ELSE 0]]
+                        IN IF d < bw THEN ab[d + 1][lo] ELSE 0])]
+UnbandLower(ab, n, bw) == [i \in 1..n |-> TLCEval([j \in 1..n |-> IF j <= i /\ i - j < bw THEN ab[i - j + 1][j] ELSE 0])]
 PaddingZero(ab, n, bw) == \A k \in 1..bw : \A j \in 1..(n + bw) : (j > n \/ j + k - 1 > n) => ab[k][j] = 0
 PadVec(x, n, bw) == [j \in 1..(n + bw) |-> IF j <= n THEN x[j] ELSE 0]
 VecPaddingZero(x, n, bw) == \A j \in (n + 1)..(n + bw) : x[j] = 0
@@ -84,12 +84,16 @@ IsCholFactor(L, A, n, bw) == IsLowerBanded(L, n, bw) /\ (\A i \in 1..n : L[i][i]
 Solves(A, x, b, n) == MatVec(A, x, n) = [i \in 1..n |-> b[i]]
 
 (* positive definiteness decided exactly: eliminate with rational arithmetic, every pivot positive *)
-RatMat(A, n) == [i \in 1..n |-> [j \in 1..n |-> OfInt(A[i][j])]]
-Schur(S, m) == [i \in 1..(m - 1) |-> [j \in 1..(m - 1) |->
-                  QSub(S[i + 1][j + 1], QDiv(QMul(S[i + 1][1], S[1][j + 1]), S[1][1]))]]
-RECURSIVE PosPivots(_, _)
-PosPivots(S, m) == S[1][1][1] > 0 /\ (m = 1 \/ PosPivots(TLCEval(Schur(S, m)), m - 1))
-IsPD(A, n) == PosPivots(TLCEval(RatMat(A, n)), n)
+RatMat(A, n) == [i \in 1..n |-> TLCEval([j \in 1..n |-> OfInt(A[i][j])])]
+Schur(S, m) == [i \in 1..(m - 1) |-> TLCEval([j \in 1..(m - 1) |->
+                  QSub(S[i + 1][j + 1], QDiv(QMul(S[i + 1][1], S[1][j + 1]), S[1][1]))])]
+RECURSIVE PivotClass(_, _)
+PivotClass(S, m) == IF S[1][1][1] < 0 THEN -1 ELSE IF S[1][1][1] = 0 THEN 0
+                    ELSE IF m = 1 THEN 1 ELSE PivotClass(TLCEval(Schur(S, m)), m - 1)
+(* 1: every pivot positive (positive definite); -1: the first non-positive pivot is negative;       *)
+(* 0: the first non-positive pivot is exactly zero (singular at that step)                          *)
+Definiteness(A, n) == PivotClass(TLCEval(RatMat(A, n)), n)
+IsPD(A, n) == Definiteness(A, n) = 1
 
 (* ---- the call model of part (a) ---- *)
 (* c = [n, bw, L (integer lower banded, positive diagonal), d (signature, entries 1 / 0 / -1),   *)
@@ -122,6 +126,12 @@ CholSolveLaw(c, e) == e.ok => Solves(Unband(e.ab, c.n, c.bw), e.x, e.b, c.n) /\ 
 CholDefiniteness(c, e) == /\ (\A j \in 1..c.n : c.d[j] = 1) <=> IsPD(TLCEval(Unband(e.ab, c.n, c.bw)), c.n)
                           /\ e.ok => \A j \in 1..c.n : c.d[j] = 1
 
+(* ---- named deviation (what pydl does today) ---- *)
+(* D-C09-2: a matrix whose diagonal passes the screening but which is not positive definite makes   *)
+(* cholesky_band raise ValueError (the fall-back elimination that should locate the bad column      *)
+(* never updates the remaining columns, finds nothing, and then cannot restore the padding)         *)
+Dev_IndefiniteRaises(c, e) == c.bad = <<>> /\ ~e.ok /\ DiagAbove(Unband(e.ab, c.n, c.bw), c.n, c.minf2)
+
 (***************************************************************************)
 (* Part (b) - the least-squares optimum, exactly                           *)
 (*                                                                         *)
@@ -140,7 +150,7 @@ B(t, j, i, k, x) ==
   ELSE IF k = 1 THEN One
   ELSE QAdd(QMul(QDiv(QSub(x, OfInt(t[i])), OfInt(t[i + k - 1] - t[i])), B(t, j, i, k - 1, x)),
             QMul(QDiv(QSub(OfInt(t[i + k]), x), OfInt(t[i + k] - t[i + 1])), B(t, j, i + 1, k - 1, x)))
-BasisRow(t, k, x) == LET j == CellOf(t, k, x) IN [i \in 1..NCoef(t, k) |-> B(t, j, i, k, x)]
+BasisRow(t, k, x) == LET j == CellOf(t, k, x) IN TLCEval([i \in 1..NCoef(t, k) |-> B(t, j, i, k, x)])
 SplineAt(t, k, coeff, x) == LET row == BasisRow(t, k, x) IN QSum([i \in 1..NCoef(t, k) |-> QMul(coeff[i], row[i])])
 
 (* a problem p = [t, k, x (rationals, non-decreasing, inside the range), y (integers), w (integers >= 0)] *)
@@ -160,9 +170,9 @@ NormalEq(p) ==
       n == NCoef(p.t, p.k)
       q == TLCEval([i \in 1..N |-> RowDen(D[i])])
       Q == LcmTo(q, N)
-      IR == TLCEval([i \in 1..N |-> [a \in 1..n |-> D[i][a][1] * (q[i] \div D[i][a][2])]])
+      IR == TLCEval([i \in 1..N |-> TLCEval([a \in 1..n |-> D[i][a][1] * (q[i] \div D[i][a][2])])])
       W == TLCEval([i \in 1..N |-> p.w[i] * (Q \div q[i]) * (Q \div q[i])])
-  IN [G |-> TLCEval([a \in 1..n |-> [b \in 1..n |-> ISum([i \in 1..N |-> W[i] * IR[i][a] * IR[i][b]])]]),
+  IN [G |-> TLCEval([a \in 1..n |-> TLCEval([b \in 1..n |-> ISum([i \in 1..N |-> W[i] * IR[i][a] * IR[i][b]])])]),
       r |-> TLCEval([a \in 1..n |-> ISum([i \in 1..N |-> W[i] * IR[i][a] * p.y[i] * q[i]])])]
 
 Cyc(i) == ((i - 1) % 3) + 1
@@ -173,20 +183,20 @@ Det(G) == CASE Len(G) = 1 -> G[1][1]
             [] Len(G) = 3 -> G[1][1] * Cof3(G, 1, 1) + G[1][2] * Cof3(G, 1, 2) + G[1][3] * Cof3(G, 1, 3)
 Adj(G) == CASE Len(G) = 1 -> << <<1>> >>
             [] Len(G) = 2 -> << <<G[2][2], -G[1][2]>>, <<-G[2][1], G[1][1]>> >>
-            [] Len(G) = 3 -> [j \in 1..3 |-> [k \in 1..3 |-> Cof3(G, k, j)]]
+            [] Len(G) = 3 -> [j \in 1..3 |-> TLCEval([k \in 1..3 |-> Cof3(G, k, j)])]
 
 (* order 1: the basis functions are the indicators of the cells, the system is diagonal (any size) *)
-WellPosed(p) == LET ne == NormalEq(p) IN
+WellPosed(p) == LET ne == TLCEval(NormalEq(p)) IN
                 IF p.k = 1 THEN \A a \in 1..NCoef(p.t, p.k) : ne.G[a][a] > 0 ELSE Det(ne.G) # 0
 Optimum(p) ==
-  LET ne == NormalEq(p)
+  LET ne == TLCEval(NormalEq(p))
       n == NCoef(p.t, p.k)
   IN IF p.k = 1 THEN [a \in 1..n |-> R(ne.r[a], ne.G[a][a])]
-     ELSE LET ad == Adj(ne.G)
+     ELSE LET ad == TLCEval(Adj(ne.G))
               d == Det(ne.G)
           IN [a \in 1..n |-> R(ISum([b \in 1..n |-> ad[a][b] * ne.r[b]]), d)]
 YfitOf(p, coeff) == LET D == Design(p) IN
-                    [i \in 1..NPts(p) |-> QSum([a \in 1..NCoef(p.t, p.k) |-> QMul(coeff[a], D[i][a])])]
+                    TLCEval([i \in 1..NPts(p) |-> QSum([a \in 1..NCoef(p.t, p.k) |-> QMul(coeff[a], D[i][a])])])
 ExpectedFit(p) == LET c == TLCEval(Optimum(p)) IN [status |-> 0, coeff |-> c, yfit |-> YfitOf(p, c)]
 
 (* ---- the laws: what makes `coeff` THE weighted least-squares answer ---- *)
@@ -253,21 +263,33 @@ SupportOK(P) == /\ P.nord >= 1 /\ P.S >= 1 /\ Len(P.pc) = 2 * P.S + 1
 RankIn(mask, g) == Cardinality({h \in mask : h <= g})
 CPos(mask, pos) == IF pos % 2 = 0 /\ (pos \div 2) \in mask THEN 2 * RankIn(mask, pos \div 2)
                    ELSE 2 * Cardinality({h \in mask : 2 * h < pos}) + 1
-(* number of distinct good abscissae strictly between compressed positions lo and hi *)
-CountBetween(P, mask, lo, hi) ==
-  ISumSet(P.pc, {q \in 1..Len(P.pc) : P.pc[q] > 0 /\ lo < CPos(mask, EffPos(P, q)) /\ CPos(mask, EffPos(P, q)) < hi})
+(* one pass over the data of P under a mask: cnt[v] = distinct good abscissae at compressed position *)
+(* v, cum = running totals, between(lo, hi) = number strictly between compressed positions lo and hi   *)
+RECURSIVE CumSeq(_, _)
+CumSeq(cnt, v) == IF v = 0 THEN <<>>
+                  ELSE LET s == CumSeq(cnt, v - 1) IN Append(s, (IF v = 1 THEN 0 ELSE s[v - 1]) + cnt[v])
 NCoefOf(P, mask) == Cardinality(mask) - P.nord
-Touched(P, mask) == \A j \in 1..NCoefOf(P, mask) : CountBetween(P, mask, 2 * j, 2 * (j + P.nord)) >= 1
-Determined(P, mask) == \A i \in 1..NCoefOf(P, mask) : \A j \in i..NCoefOf(P, mask) :
-                          CountBetween(P, mask, 2 * i, 2 * (j + P.nord)) >= j - i + 1
-(* every cell of the mask holds a datum (on its closed extent) *)
-CellsHaveData(P, mask) == \A s \in P.nord..(Cardinality(mask) - P.nord) :
-                             CountBetween(P, mask, 2 * s - 1, 2 * s + 3) >= 1
+SupportInfo(P, mask) ==
+  LET M == Cardinality(mask)
+      k == P.nord
+      n == M - k
+      cp == TLCEval([q \in 1..Len(P.pc) |-> CPos(mask, EffPos(P, q))])
+      cnt == TLCEval([v \in 1..(2 * M + 1) |-> ISum([q \in 1..Len(P.pc) |-> IF cp[q] = v THEN P.pc[q] ELSE 0])])
+      cum == TLCEval(CumSeq(cnt, 2 * M + 1))
+      between(lo, hi) == cum[hi - 1] - cum[lo]
+  IN [(* every basis function sees a datum inside its support *)
+      touched |-> \A j \in 1..n : between(2 * j, 2 * (j + k)) >= 1,
+      (* Hall's condition on every run i..j of consecutive basis functions *)
+      determined |-> \A i \in 1..n : \A j \in i..n : between(2 * i, 2 * (j + k)) >= j - i + 1,
+      (* every cell of the mask holds a datum (on its closed extent) *)
+      cells |-> \A c \in k..(M - k) : between(2 * c - 1, 2 * c + 3) >= 1]
+Touched(P, mask) == SupportInfo(P, mask).touched
+Determined(P, mask) == SupportInfo(P, mask).determined
 TotalData(P) == ISum(P.pc)
 
 (* the three classes of the statement *)
-WellSupported(P, mask) == Determined(P, mask) /\ CellsHaveData(P, mask)   \* status 0 is demanded
-Unsupported(P, mask) == ~Touched(P, mask)                                  \* status 0 is excluded
+WellSupported(P, mask) == LET si == SupportInfo(P, mask) IN si.determined /\ si.cells   \* status 0 is demanded
+Unsupported(P, mask) == ~Touched(P, mask)                                               \* status 0 is excluded
 (* in between (every basis function sees data but there are too few data to determine all          *)
 (* coefficients) the statement's "too few data" is detected or not at rounding level; any           *)
 (* documented status is accepted, finite coefficients are still demanded                            *)
@@ -298,32 +320,45 @@ TooFewKnots == Cardinality(bkmask) < 2 * prob.nord
 
 FitOK == /\ CanFit /\ ~TooFewKnots /\ ~Unsupported(prob, bkmask)
          /\ status' = 0 /\ nfits' = nfits + 1 /\ UNCHANGED <<prob, bkmask, phase>>
-FitDrop(m2) == /\ CanFit /\ ~TooFewKnots /\ ~WellSupported(prob, bkmask)
-               /\ m2 \subseteq bkmask /\ m2 # bkmask /\ (bkmask \ m2) \subseteq Interior(prob)
-               /\ status' = -1 /\ bkmask' = m2 /\ nfits' = nfits + 1 /\ UNCHANGED <<prob, phase>>
+CanDrop == CanFit /\ ~TooFewKnots /\ ~WellSupported(prob, bkmask)
+DropTo(m2) == /\ m2 \subseteq bkmask /\ m2 # bkmask /\ (bkmask \ m2) \subseteq Interior(prob)
+              /\ status' = -1 /\ bkmask' = m2 /\ nfits' = nfits + 1 /\ UNCHANGED <<prob, phase>>
+FitDrop(m2) == CanDrop /\ DropTo(m2)
 FitFail == /\ CanFit /\ (TooFewKnots \/ ~WellSupported(prob, bkmask))
            /\ status' = -2 /\ nfits' = nfits + 1 /\ UNCHANGED <<prob, bkmask, phase>>
 (* the caller's loop (iterfit) fits again after -1, stops after 0 and -2 and when its budget is used; *)
-(* it declines to fit at all when there are fewer good data than the order                           *)
+(* it declines to fit at all when there are fewer good data than the order, or at most one           *)
 Return == /\ phase = "fitting"
           /\ \/ status \in {0, -2}
              \/ nfits >= prob.maxfits
-             \/ nfits = 0 /\ TotalData(prob) < prob.nord
+             \/ nfits = 0 /\ (TotalData(prob) < prob.nord \/ TotalData(prob) <= 1)
           /\ phase' = "returned" /\ UNCHANGED <<prob, bkmask, status, nfits>>
 (* with no good datum at all the caller refuses the data (ValueError "No valid data points") *)
 Refuse == /\ phase = "fitting" /\ nfits = 0 /\ TotalData(prob) = 0
           /\ phase' = "refused" /\ UNCHANGED <<prob, bkmask, status, nfits>>
 
-MNext == FitOK \/ (\E m2 \in SUBSET bkmask : FitDrop(m2)) \/ FitFail \/ Return \/ Refuse
+MNext == \/ FitOK
+         \/ CanDrop /\ \E D \in (SUBSET (bkmask \cap Interior(prob))) \ {{}} : DropTo(bkmask \ D)
+         \/ FitFail \/ Return \/ Refuse
 
 (* what a fit from the current state may answer, as data (used by replay): the admissible statuses *)
 (* and the knots a -1 may drop                                                                      *)
 FitClass(P, mask) ==
-  [allowed |-> (IF Cardinality(mask) >= 2 * P.nord /\ ~Unsupported(P, mask) THEN {0} ELSE {})
-               \cup (IF Cardinality(mask) < 2 * P.nord THEN {-2}
-                     ELSE IF WellSupported(P, mask) THEN {}
-                     ELSE (IF mask \cap Interior(P) # {} THEN {-1} ELSE {}) \cup {-2}),
-   droppable |-> mask \cap Interior(P)]
+  LET few == Cardinality(mask) < 2 * P.nord
+      si == IF few THEN [touched |-> FALSE, determined |-> FALSE, cells |-> FALSE] ELSE SupportInfo(P, mask)
+      ws == si.determined /\ si.cells
+  IN [allowed |-> (IF ~few /\ si.touched THEN {0} ELSE {})
+                  \cup (IF few THEN {-2}
+                        ELSE IF ws THEN {}
+                        ELSE (IF mask \cap Interior(P) # {} THEN {-1} ELSE {}) \cup {-2}),
+      droppable |-> mask \cap Interior(P),
+      determined |-> si.determined]
+
+(* ---- named deviation (what pydl does today) ---- *)
+(* D-C09-1: whenever the factorisation signals a problem and there are more than 2 nord good knots *)
+(* (i.e. breakpoints could be dropped), bspline.maskpoints raises IndexError / TypeError instead   *)
+(* of answering -1 / -2; every fit whose class excludes status 0 is affected                       *)
+Dev_MaskpointsRaises(P, mask) == Cardinality(mask) > 2 * P.nord /\ 0 \notin FitClass(P, mask).allowed
 
 (* ---- properties of the machine ---- *)
 MTypeOK == /\ status \in Statuses \cup {NoFit} /\ bkmask \subseteq AllKnots(prob)
@@ -334,10 +369,11 @@ FitsBounded == nfits <= Cardinality(AllKnots(prob) \ bkmask) + 1
 OKOnlyIfSupported == status = 0 => ~Unsupported(prob, bkmask)
 DropMeansDropped == status = -1 => bkmask # AllKnots(prob)
 (* consistency of the classes: whatever is demanded is allowed *)
-ClassesConsistent == /\ WellSupported(prob, bkmask) => ~Unsupported(prob, bkmask)
-                     /\ FitClass(prob, bkmask).allowed # {}
-                     /\ (0 \in FitClass(prob, bkmask).allowed /\ -2 \notin FitClass(prob, bkmask).allowed) <=>
-                            (Cardinality(bkmask) >= 2 * prob.nord /\ WellSupported(prob, bkmask))
+ClassesConsistent == LET si == SupportInfo(prob, bkmask)
+                         cls == FitClass(prob, bkmask)
+                     IN /\ si.determined => si.touched
+                        /\ cls.allowed # {}
+                        /\ (cls.allowed = {0}) <=> (Cardinality(bkmask) >= 2 * prob.nord /\ si.determined /\ si.cells)
 (* merging cells never turns a determined space into an undetermined one *)
 DropKeepsDetermined == \A g \in bkmask \cap Interior(prob) :
                           Determined(prob, bkmask) => Determined(prob, bkmask \ {g})
